@@ -28,6 +28,10 @@ CHECKS = {
         technique='Japanese CCG schemas and unary labelling transcribed into TLA+ (GrammarJa.tla), laws model-checked by TLC; TLC-enumerated pairs (incl. left spines to depth 3) replayed into ja.apply_binary_rules / apply_unary_rules and trace-validated',
         text='MCGrammarJa checks that schema instances are justified, that a head-left or forward-slash crossed result never is, and emits every pair of its universes (non-modifier functors included, which the shipped inventories never exercise); these, the test triples, seen rules, inventory pairs, closure rounds and unary steps (shipped and synthetic left-hand sides) are run on the real rule functions and judged by RulesTrace.tla',
         ref='6/C04'),
+    'C14': dict(
+        technique='memo state machine in TLA+ (RulePurity.tla) model-checked by TLC; observations of the real rule functions merged from interpreters with different PYTHONHASHSEED and trace-validated (same result per key, arguments unchanged, filter full-or-empty by membership, nb independence, exact unary lookup)',
+        text='every key (inventory pairs, seen rules, synthetic pairs in which one feature variable meets different values, unary left-hand sides) is applied twice in each of 4 (quick) / 64 (thorough) fresh interpreters; RulesTrace.tla accepts the merged trace only if one function of the key explains all observations, no call raised or changed its arguments, the seen-rule gate is all-or-nothing by membership of the erased pair in the real seen set, English results ignore nb marks, and unary lookups return exactly the configured targets in order',
+        ref='6/C14'),
 }
 NOT_YET = 'check not built yet (build in progress; see DESIGN.md section 12)'
 
